@@ -281,6 +281,24 @@ def collision_db(r):
             new = f"{name}*{base}.{50 + k:03d}"
             if new not in als:
                 als[new] = {"mutations": [list(e) for e in als[src]["mutations"]], "label": lab}
+    # variants located in the pseudogene part of the record (the RefSeq covers pseudogene + gene): a fused allele keeps
+    # them exactly when it retains that pseudogene region
+    if len(doc["structure"]["genes"]) > 1 and r.random() < 0.5:
+        seq = doc["reference"]["seq"]
+        half = len(seq) // 2
+        used = {e[0] for a in als.values() for e in a["mutations"] if isinstance(e[0], int)}
+        k = 0
+        for _ in range(r.randint(1, 3)):
+            p_ = r.randint(3, half - 3)
+            if any(p_ + d_ in used for d_ in (-1, 0, 1)):
+                continue
+            used.add(p_)
+            alt = r.choice([c for c in "ACGT" if c != seq[p_ - 1]])
+            ent = [p_, f"{seq[p_ - 1]}>{alt}", "-"] + (["functional"] if r.random() < 0.6 else [])
+            k += 1
+            als[f"{name}*{60 + k}.001"] = {"mutations": [list(ent)]}
+            if plain and r.random() < 0.6:
+                als[r.choice(plain)]["mutations"].append(list(ent))
     # a renumbered copy: *10 vs *9 duplicates across majors
     if plain and r.random() < 0.4:
         src = r.choice(plain)
